@@ -1,5 +1,14 @@
 pub mod bind;
 pub mod c01;
+pub mod c02;
+pub mod c05;
+pub mod c09;
+pub mod c10;
+pub mod c15;
+pub mod c16;
+pub mod corpus;
+pub mod stream_graph;
+pub mod window;
 
 use crate::cases::run_case;
 use crate::common::{ReplayFile, Tier};
@@ -7,6 +16,12 @@ use crate::common::{ReplayFile, Tier};
 pub fn run(id: &str, tier: Tier) -> Option<i32> {
     Some(match id {
         "C01" => c01::run(tier),
+        "C02" => c02::run(tier),
+        "C05" => c05::run(tier),
+        "C09" => c09::run(tier),
+        "C10" => c10::run(tier),
+        "C15" => c15::run(tier),
+        "C16" => c16::run(tier),
         _ => return None,
     })
 }
